@@ -1125,3 +1125,69 @@ benign("c20-add-commands-setitem-loop", ["C20", "C13"], [(C, '''    for command 
     for command in cmds:
         if command.__name__.endswith("Command"):
             globals()[command.__name__] = command''')])
+
+# --------------------------------------------------------------------------- C12
+seeded("o1-add-without-uniqueness", ["C12"], "O1", [(F, '''        name = self._unicode_filter_name(name)
+        if self.filter_exists(name):
+            raise FilterAlreadyExists
+        ifcontrol = self.__create_filter(conditions, actions, matchtype)''', '''        name = self._unicode_filter_name(name)
+        if self.filter_exists(name) and isinstance(name, bytes):
+            raise FilterAlreadyExists
+        ifcontrol = self.__create_filter(conditions, actions, matchtype)''')], "test_add_duplicate uses str names... kept as checker test")
+seeded("o1-rename-onto-existing", ["C12"], "O1", [(F, '''        newname = self._unicode_filter_name(newname)
+        if newname != oldname and self.filter_exists(newname):
+            raise FilterAlreadyExists
+        filter_def["name"] = newname
+        filter_def["content"] = sieve_filter''', '''        newname = self._unicode_filter_name(newname)
+        filter_def["name"] = newname
+        filter_def["content"] = sieve_filter''')], "replacefilter's duplicate path is untested")
+seeded("o2-update-reinserts", ["C12"], "O2", [(F, '''        filter_def["name"] = newname
+        filter_def["content"] = self.__create_filter(conditions, actions, matchtype)''', '''        filter_def["name"] = newname
+        filter_def["content"] = self.__create_filter(conditions, actions, matchtype)
+        self.filters.remove(filter_def)
+        self.filters.append(filter_def)''')], "single-filter tests do not see the position change")
+seeded("o2-update-enables", ["C12"], "O2", [(F, '''        filter_def["content"] = self.__create_filter(conditions, actions, matchtype)
+        if not filter_def["enabled"]:
+            return self.disablefilter(newname)
+        return True''', '''        filter_def["content"] = self.__create_filter(conditions, actions, matchtype)
+        return True''')], "updating a disabled filter silently activates it")
+seeded("o3-move-down-by-two", ["C12"], "O3", [(F, "self.filters.insert(cpt + 1, f)", "self.filters.insert(cpt + 2, f)")])
+seeded("o3-move-up-from-first", ["C12"], "O3", [(F, '''                    if cpt == 0:
+                        return False
+''', '')], "insert(-1, f): first filter jumps to second-to-last")
+seeded("o3-move-copy", ["C12"], "O3", [(F, '''                if cpt == len(self.filters) - 1:
+                    return False
+                self.filters.remove(f)
+                self.filters.insert(cpt + 1, f)''', '''                if cpt == len(self.filters) - 1:
+                    return False
+                self.filters.insert(cpt + 1, f)''')])
+seeded("o4-remove-first-on-unknown", ["C12"], "O4", [(F, '''        for f in self.filters:
+            if f["name"] == name:
+                self.filters.remove(f)
+                return True
+        return False''', '''        for f in self.filters:
+            if f["name"] == name or not name:
+                self.filters.remove(f)
+                return True
+        return False''')])
+seeded("o4-enable-returns-true-unknown", ["C12"], "O4", [(F, "        return False  # raise NotFound", "        return True  # raise NotFound")])
+seeded("o5-disable-twice", ["C12"], "O5", [(F, '''            if self.__isdisabled(f["content"]):
+                # already disabled: do not wrap it a second time
+                return False
+''', '')], "pre-fix behaviour")
+seeded("o5-enable-without-unwrap", ["C12"], "O5", [(F, '''            f["content"] = f["content"].children[0]
+            f["enabled"] = True''', '''            f["enabled"] = True''')])
+seeded("o5-getfilter-returns-wrapper", ["C12", "C19"], {"C12": "O5", "C19": "B3"}, [(F, '''                if not f["enabled"]:
+                    return f["content"].children[0]
+                return f["content"]''', '''                return f["content"]''')], "conditions of a disabled filter read back as [] / true-false")
+benign("c12-move-enumerate", ["C12"], [(F, '''        cpt = 0
+        for f in self.filters:
+            if f["name"] == name:
+                if direction == "up":''', '''        cpt = 0
+        for f in self.filters:
+            if name == f["name"]:
+                if direction == "up":''')])
+benign("c12-disable-guard-by-flag-and-content", ["C12"], [(F, '''            if self.__isdisabled(f["content"]):
+                # already disabled: do not wrap it a second time
+                return False''', '''            if self.__isdisabled(f["content"]) is True:
+                return False''')])
